@@ -107,6 +107,21 @@ Qed.
 Lemma nolf_transmission k pl : nolf (transmission k pl).
 Proof. unfold transmission. destruct pl; repeat constructor. apply nolf_conts. Qed.
 
+Lemma nocr_kfill : nocr (kfill w mix).
+Proof. unfold kfill. destruct mix; repeat constructor. Qed.
+Lemma nocr_kdel : nocr (kdel blend).
+Proof. unfold kdel. destruct blend; repeat constructor. Qed.
+Lemma nocr_conts pl : nocr (conts pl).
+Proof.
+  induction pl as [|p rest IH]; [constructor|]. destruct rest; [repeat constructor|].
+  change (conts (p :: z0 :: rest)) with (TKittyCont true p :: conts (z0 :: rest)).
+  constructor; [reflexivity|exact IH].
+Qed.
+Lemma nocr_transmission k pl : nocr (transmission k pl).
+Proof. unfold transmission. destruct pl; repeat constructor. apply nocr_conts. Qed.
+Lemma nocr_kitty_trans_line k pl : nocr (kdel blend ++ transmission k pl ++ kfill w mix).
+Proof. apply nocr_app; [apply nocr_kdel|]. apply nocr_app; [apply nocr_transmission|apply nocr_kfill]. Qed.
+
 (** [fill] from column [c]: erases (unless mixing) and skips [w] cells *)
 Lemma exec_kfill lm t : parser t = Ground ->
   exec lm t (kfill w mix) =
@@ -179,23 +194,30 @@ Proof.
   rewrite !andb_true_iff, !Z.leb_le, !Z.ltb_lt. lia.
 Qed.
 
-Theorem kitty_lines_rect pls :
-  Z.of_nat (length pls) = h -> Rect w h (kitty_lines w z mix blend pls).
+Theorem kitty_lines_lr pls :
+  Z.of_nat (length pls) = h -> LinesRect all_cells w h (map (kitty_line w z mix blend) pls).
 Proof.
-  intros Hlen. unfold kitty_lines. apply lines_rect; auto.
+  intros Hlen. constructor; auto.
   - rewrite map_length. exact Hlen.
   - destruct pls; [cbn in Hlen; lia|discriminate].
   - intros i l Hn. apply nth_error_map_inv in Hn. destruct Hn as (pl & Hn & ->).
     assert (i < length pls)%nat by (apply nth_error_Some; congruence).
     apply kitty_trans_line_ok; lia.
-  - apply CovRows. intros i l lm t Hn Hc Hcol Hs c Hcc.
+  - intros l Hin. apply in_map_iff in Hin. destruct Hin as (pl & <- & _).
+    apply nocr_kitty_trans_line.
+  - apply coverage_rows; [rewrite map_length; exact Hlen|].
+    intros i l lm t Hn Hc Hcol Hs c Hcc.
     apply nth_error_map_inv in Hn. destruct Hn as (pl & Hn & ->).
     apply kitty_trans_line_covers; auto; lia.
 Qed.
 
-Theorem kitty_whole_rect pl : Rect w h (kitty_whole w h z mix blend pl).
+Theorem kitty_lines_rect pls :
+  Z.of_nat (length pls) = h -> Rect w h (kitty_lines w z mix blend pls).
+Proof. intros Hlen. apply lines_rect', kitty_lines_lr, Hlen. Qed.
+
+Theorem kitty_whole_lr pl : LinesRect all_cells w h (kitty_whole_ls w h z mix blend pl).
 Proof.
-  unfold kitty_whole, kitty_whole_ls. apply lines_rect; auto.
+  unfold kitty_whole_ls. constructor; auto.
   - cbn [length]. rewrite repeat_length. lia.
   - discriminate.
   - intros i l Hn. destruct i as [|i].
@@ -203,9 +225,14 @@ Proof.
     + cbn [nth_error] in Hn. assert (Hi : (i < Z.to_nat (h - 1))%nat).
       { rewrite <- (repeat_length (kfill w mix)). apply nth_error_Some. congruence. }
       apply nth_error_In, repeat_spec in Hn. subst l. apply kfill_line_ok. lia.
-  - eapply (CovBlock _ _ _ 0%nat); [reflexivity|].
+  - intros l [<-|Hin]; [apply nocr_kitty_trans_line|].
+    apply repeat_spec in Hin. subst l. apply nocr_kfill.
+  - eapply (coverage_block _ _ _ _ 0%nat); [reflexivity|].
     intros lm t Hc Hcol Hs r c Hr Hcc. apply kitty_trans_line_covers; auto; lia.
 Qed.
+
+Theorem kitty_whole_rect pl : Rect w h (kitty_whole w h z mix blend pl).
+Proof. apply lines_rect', kitty_whole_lr. Qed.
 End Kitty.
 
 (** ** iterm2 *)
@@ -222,6 +249,16 @@ Lemma nolf_ierase : nolf ierase.
 Proof. unfold GfxRender.ierase. destruct (negb mix && wezterm); repeat constructor. Qed.
 Lemma nolf_icuf : nolf icuf.
 Proof. repeat constructor. Qed.
+
+Lemma nocr_ierase : nocr ierase.
+Proof. unfold GfxRender.ierase. destruct (negb mix && wezterm); repeat constructor. Qed.
+Lemma nocr_icuf : nocr icuf.
+Proof. repeat constructor. Qed.
+Lemma nocr_iterm2_line sp : nocr (iterm2_line w konsole wezterm mix sp).
+Proof.
+  unfold iterm2_line. apply nocr_app; [apply nocr_ierase|]. apply nocr_app; [repeat constructor|].
+  destruct konsole; [apply nocr_icuf|constructor].
+Qed.
 
 Definition ierase_evs (r c : Z) (a : attrs) : list ev :=
   if negb mix && wezterm then erase_evs r c a (Z.to_nat w) else [].
@@ -275,22 +312,29 @@ Proof.
     + destruct konsole; cbn [forallb]; rewrite andb_true_r; apply andb_true_iff; split; inside_tac.
 Qed.
 
-Theorem iterm2_lines_rect sps :
-  Z.of_nat (length sps) = h -> Rect w h (iterm2_lines w konsole wezterm mix sps).
+Theorem iterm2_lines_lr sps :
+  Z.of_nat (length sps) = h ->
+  LinesRect all_cells w h (map (iterm2_line w konsole wezterm mix) sps).
 Proof.
-  intros Hlen. unfold iterm2_lines. apply lines_rect; auto.
+  intros Hlen. constructor; auto.
   - rewrite map_length. exact Hlen.
   - destruct sps; [cbn in Hlen; lia|discriminate].
   - intros i l Hn. apply nth_error_map_inv in Hn. destruct Hn as (sp & Hn & ->).
     assert (i < length sps)%nat by (apply nth_error_Some; congruence).
     apply iterm2_line_ok; lia.
-  - apply CovRows. intros i l lm t Hn Hc Hcol Hs c Hcc.
+  - intros l Hin. apply in_map_iff in Hin. destruct Hin as (sp & <- & _). apply nocr_iterm2_line.
+  - apply coverage_rows; [rewrite map_length; exact Hlen|].
+    intros i l lm t Hn Hc Hcol Hs c Hcc.
     apply nth_error_map_inv in Hn. destruct Hn as (sp & Hn & ->).
     erewrite line_evs_mk by (apply iterm2_line_exec; assumption).
     rewrite covered_app. apply orb_true_iff. right.
     destruct konsole; unfold covered; cbn [existsb ev_covers];
       rewrite orb_false_r, !andb_true_iff, !Z.leb_le, !Z.ltb_lt; lia.
 Qed.
+
+Theorem iterm2_lines_rect sps :
+  Z.of_nat (length sps) = h -> Rect w h (iterm2_lines w konsole wezterm mix sps).
+Proof. intros Hlen. apply lines_rect', iterm2_lines_lr, Hlen. Qed.
 
 (** WHOLE / native ANIM *)
 Lemma ierase_icuf_ok i : 0 <= i < h -> LineOK w h i (ierase ++ icuf).
@@ -359,9 +403,21 @@ Proof.
   apply nolf_app; [destruct (1 <? h); repeat constructor|repeat constructor].
 Qed.
 
-Lemma whole_konsole_rect sp : Rect w h (joinlf (kons_first sp :: repeat icuf (Z.to_nat (h - 1)))).
+Lemma nocr_kons_first sp : nocr (kons_first sp).
 Proof.
-  apply lines_rect; auto.
+  unfold kons_first. apply nocr_app; [apply nocr_ierase|].
+  apply nocr_app; [repeat constructor|apply nocr_icuf].
+Qed.
+Lemma nocr_other_last sp : nocr (other_last sp).
+Proof.
+  unfold other_last. apply nocr_app; [apply nocr_ierase|].
+  apply nocr_app; [destruct (1 <? h); repeat constructor|repeat constructor].
+Qed.
+
+Lemma whole_konsole_lr sp :
+  LinesRect all_cells w h (kons_first sp :: repeat icuf (Z.to_nat (h - 1))).
+Proof.
+  constructor; auto.
   - cbn [length]. rewrite repeat_length. lia.
   - discriminate.
   - intros i l Hn. destruct i as [|i].
@@ -373,7 +429,9 @@ Proof.
     + cbn [nth_error] in Hn. assert (Hi : (i < Z.to_nat (h - 1))%nat).
       { rewrite <- (repeat_length icuf). apply nth_error_Some. congruence. }
       apply nth_error_In, repeat_spec in Hn. subst l. apply icuf_ok. lia.
-  - eapply (CovBlock _ _ _ 0%nat); [reflexivity|].
+  - intros l [<-|Hin]; [apply nocr_kons_first|].
+    apply repeat_spec in Hin. subst l. apply nocr_icuf.
+  - eapply (coverage_block _ _ _ _ 0%nat); [reflexivity|].
     intros lm t Hc Hcol Hs r c Hr Hcc.
     erewrite line_evs_mk by (apply kons_first_exec; assumption).
     rewrite covered_app. apply orb_true_iff. right.
@@ -381,13 +439,13 @@ Proof.
     rewrite orb_false_r, !andb_true_iff, !Z.leb_le, !Z.ltb_lt. lia.
 Qed.
 
-Lemma whole_other_rect sp :
-  Rect w h (joinlf (repeat (ierase ++ icuf) (Z.to_nat (h - 1)) ++ [other_last sp])).
+Lemma whole_other_lr sp :
+  LinesRect all_cells w h (repeat (ierase ++ icuf) (Z.to_nat (h - 1)) ++ [other_last sp]).
 Proof.
   assert (Hlen : length (repeat (ierase ++ icuf) (Z.to_nat (h - 1)) ++ [other_last sp])
                  = Z.to_nat h).
   { rewrite app_length, repeat_length. cbn. lia. }
-  apply lines_rect; auto.
+  constructor; auto.
   - rewrite Hlen. lia.
   - destruct (repeat (ierase ++ icuf) (Z.to_nat (h - 1))); discriminate.
   - intros i l Hn.
@@ -405,7 +463,10 @@ Proof.
       * apply ierase_inside. lia.
       * destruct (1 <? h); [|reflexivity]. cbn [forallb]. rewrite andb_true_r. inside_tac.
       * cbn [forallb]. rewrite andb_true_r. apply andb_true_iff. split; inside_tac.
-  - eapply (CovBlock _ _ _ (Z.to_nat (h - 1))).
+  - intros l Hin. apply in_app_iff in Hin. destruct Hin as [Hin|[<-|[]]].
+    + apply repeat_spec in Hin. subst l. apply nocr_app; [apply nocr_ierase|apply nocr_icuf].
+    + apply nocr_other_last.
+  - eapply (coverage_block _ _ _ _ (Z.to_nat (h - 1))).
     + rewrite nth_error_app2 by (rewrite repeat_length; lia).
       rewrite repeat_length, Nat.sub_diag. reflexivity.
     + intros lm t Hc Hcol Hs r c Hr Hcc.
@@ -417,10 +478,14 @@ Qed.
 
 End Iterm2.
 
+Theorem iterm2_whole_lr w h konsole wezterm mix sp :
+  0 < w -> 0 < h -> LinesRect all_cells w h (iterm2_whole_ls w h konsole wezterm mix sp).
+Proof.
+  intros Hw Hh. unfold iterm2_whole_ls. destruct konsole.
+  - apply (whole_konsole_lr w h wezterm mix Hw Hh sp).
+  - apply (whole_other_lr w h wezterm mix Hw Hh sp).
+Qed.
+
 Theorem iterm2_whole_rect w h konsole wezterm mix sp :
   0 < w -> 0 < h -> Rect w h (iterm2_whole w h konsole wezterm mix sp).
-Proof.
-  intros Hw Hh. unfold iterm2_whole, iterm2_whole_ls. destruct konsole.
-  - apply (whole_konsole_rect w h wezterm mix Hw Hh sp).
-  - apply (whole_other_rect w h wezterm mix Hw Hh sp).
-Qed.
+Proof. intros Hw Hh. apply lines_rect', iterm2_whole_lr; assumption. Qed.
